@@ -54,7 +54,7 @@ def resolveBranch (s : Instr) : R Instr :=
       if inR s.cons c_NEG80_32BIT c_MAX_UNSIGNED_32BIT ||
          (s.cons ≤ c_MAX_SIGNED_8BIT && !s.kw.isLong)
       then .ok { s with kw := { s.kw with isShort := true } }
-      else if s.cons > c_MAX_SIGNED_8BIT && s.kw.isShort then .error Err.fail
+      else if s.cons > c_MAX_SIGNED_8BIT && s.cons < c_NEG80BIT && s.kw.isShort then .error Err.fail
       else .ok s
     match r with
     | .error e => .error e
@@ -70,7 +70,11 @@ def selectShort (s : Instr) : Instr :=
 
 /-- push with an immediate above 0x7f uses the imm32 row (src/parser.c:129) -/
 def pushAdjust (s : Instr) : Instr :=
-  if nameIs s.key c_push && s.cons > c_MAX_SIGNED_8BIT then { s with key := s.key + 1 } else s
+  if nameIs s.key c_push && s.cons > c_MAX_SIGNED_8BIT && s.cons < c_NEG80BIT then
+    let s := { s with key := s.key + 1 }
+    if inR s.cons (c_NEG32BIT + 1) c_NEG64BIT && band s.cons c_NEG32BIT_CHECK
+    then { s with cons := s.cons &&& c_MAX_UNSIGNED_32BIT } else s
+  else s
 
 /-- force a (negative) branch displacement to 32 bits (src/parser.c:114) -/
 def branch32 (s : Instr) : Instr :=
